@@ -90,6 +90,47 @@ impl<T> SyncResultReceiver<T> {
     }
 }
 
+/// Delivers an operation's result exactly once: either the real result, or - if the operation is
+/// discarded without ever being processed (client closed) - a fallback result when dropped.
+#[cfg_attr(not(feature="threaded"), allow(dead_code))]
+pub(crate) struct CompletionGuard<T> {
+    completer: Option<Box<dyn FnOnce(T) + Send + Sync>>,
+    fallback: fn() -> T,
+    disarmed: Arc<std::sync::atomic::AtomicBool>
+}
+
+#[cfg_attr(not(feature="threaded"), allow(dead_code))]
+impl<T> CompletionGuard<T> {
+    pub(crate) fn new(completer: Box<dyn FnOnce(T) + Send + Sync>, fallback: fn() -> T) -> Self {
+        CompletionGuard {
+            completer: Some(completer),
+            fallback,
+            disarmed: Arc::new(std::sync::atomic::AtomicBool::new(false))
+        }
+    }
+
+    /// Handle that switches the fallback off, for when the submitter reports the failure itself
+    pub(crate) fn disarm_handle(&self) -> Arc<std::sync::atomic::AtomicBool> {
+        self.disarmed.clone()
+    }
+
+    pub(crate) fn complete(mut self, value: T) {
+        if let Some(completer) = self.completer.take() {
+            completer(value);
+        }
+    }
+}
+
+impl<T> Drop for CompletionGuard<T> {
+    fn drop(&mut self) {
+        if let Some(completer) = self.completer.take() {
+            if !self.disarmed.load(std::sync::atomic::Ordering::SeqCst) {
+                completer((self.fallback)());
+            }
+        }
+    }
+}
+
 #[cfg_attr(not(feature="threaded"), allow(dead_code))]
 pub(crate) fn new_sync_result_pair<T>() -> (SyncResultReceiver<T>, SyncResultSender<T>) {
     let lock = Arc::new(Mutex::new(None));
